@@ -19,7 +19,23 @@ Fixpoint after_last_from (s : string) (acc : string) : string :=
                   else after_last_from r (String.append acc (String c EmptyString))
   end.
 Definition after_last_sep (s : string) : string := after_last_from s EmptyString.
-Definition default_namespace (url : string) : string := disp (after_last_sep url).
+(* since fix 18a59ef: strip_prefix('_'), then the first of ".scss" / ".sass" / ".css" that is a suffix *)
+Definition strip_us (s : string) : string := match s with String "_"%char r => r | _ => s end.
+Fixpoint strip_suffix (suf s : string) : option string :=
+  if String.eqb s suf then Some EmptyString else
+  match s with
+  | EmptyString => None
+  | String c r => match strip_suffix suf r with Some t => Some (String c t) | None => None end
+  end.
+Definition strip_ext (s : string) : string :=
+  match strip_suffix ".scss" s with
+  | Some t => t
+  | None => match strip_suffix ".sass" s with
+            | Some t => t
+            | None => match strip_suffix ".css" s with Some t => t | None => s end
+            end
+  end.
+Definition default_namespace (url : string) : string := disp (strip_ext (strip_us (after_last_sep url))).
 
 (* ---- members of a module and what a user sees ---- *)
 Record members := mkMem { m_vars : list (string * Z); m_funs : list string; m_mixins : list string }.
